@@ -74,10 +74,41 @@ type c14Scenario struct {
 	Lenient     bool     `json:"profile_and_validate_endpoints_accept_any_token,omitempty"`
 	PastExpiry  bool     `json:"session_past_its_expiry_when_refreshed,omitempty"`
 	OIDC        bool     `json:"oidc"`
+	// claim-shape scenarios (c14_shapes_test.go): the ID tokens of the flow lack these claims, so the
+	// profile endpoint is consulted for each of them (in the order the proxy needs them)
+	Shape bool     `json:"claim_shape_scenario,omitempty"`
+	Lacks []string `json:"id_token_lacks,omitempty"`
+	// Only: choice points at these endpoints only (the other endpoints answer well-formed; their
+	// positions are enumerated by the scenarios above)
+	Only []string `json:"choice_points_only_at,omitempty"`
+	// ProfileUnverified: the profile endpoint's well-formed answer says email_verified=false during
+	// the explored requests (the healthy lookup ends in a refusal)
+	ProfileUnverified bool `json:"profile_says_email_unverified,omitempty"`
+}
+
+func (sc *c14Scenario) lacks(claim string) bool {
+	for _, l := range sc.Lacks {
+		if l == claim {
+			return true
+		}
+	}
+	return false
+}
+
+func (sc *c14Scenario) choicePointAt(endpoint string) bool {
+	if len(sc.Only) == 0 {
+		return true
+	}
+	for _, o := range sc.Only {
+		if o == endpoint {
+			return true
+		}
+	}
+	return false
 }
 
 func c14Scenarios() []*c14Scenario {
-	oidc := []string{"--email-domain=*", "--cookie-secure=false", "--code-challenge-method=S256", "--insecure-oidc-skip-nonce=false", "--pass-access-token=true"}
+	oidc := c14OIDCFlags()
 	kc := []string{
 		"--provider=keycloak", "--client-id=" + world.ClientID, "--client-secret=" + world.ClientSecret,
 		"--cookie-secret=" + cookieSecret32, "--http-address=-",
@@ -216,6 +247,17 @@ func c14Alphabet(sc *c14Scenario, endpoint, grant string) []string {
 		out = append(out, "jwks-no-keys", "jwks-garbage-keys", "jwks-wrong-key")
 	case "userinfo":
 		out = append(out, "401-invalid-token", "userinfo-no-email", "userinfo-email-number", "userinfo-json-array")
+		if sc.Shape {
+			// (the 8 MiB document — a kind that can never alarm — is delivered at the profile endpoint by the
+			// login-profile scenarios; not once more at each of the shapes' lookups)
+			kept := out[:0]
+			for _, k := range out {
+				if k != "oversized-8MiB" {
+					kept = append(kept, k)
+				}
+			}
+			out = append(kept, c14ShapeUserinfoKinds...)
+		}
 	case "validate":
 		out = append(out, "401-invalid-token")
 	case "token":
@@ -239,6 +281,11 @@ func c14Alphabet(sc *c14Scenario, endpoint, grant string) []string {
 }
 
 func c14Class(sc *c14Scenario, endpoint, grant, kind string) int {
+	if sc.Shape && endpoint == "userinfo" {
+		if cl, ok := c14ShapeClass(sc, kind); ok {
+			return cl
+		}
+	}
 	if sc.ProfileOpt && endpoint == "userinfo" {
 		switch kind {
 		case "userinfo-no-email":
@@ -286,8 +333,10 @@ func c14Family(kind string) string {
 		return "transport-failure"
 	case "slow-500":
 		return "slow-answer"
-	case "200-empty", "truncated-json", "text-plain", "oversized-8MiB", "userinfo-json-array", "jwks-garbage-keys", "expires-in-garbage":
+	case "200-empty", "truncated-json", "text-plain", "oversized-8MiB", "userinfo-json-array", "jwks-garbage-keys", "expires-in-garbage", "userinfo-json-null", "userinfo-json-string":
 		return "malformed-body"
+	case "userinfo-empty-object":
+		return "missing-field"
 	case "no-id-token", "no-access-token", "userinfo-no-email", "jwks-no-keys", "discovery-no-endpoints", "no-expires-in", "no-id-token+no-expires-in", "expires-in-zero":
 		return "missing-field"
 	case "jwks-wrong-key", "discovery-issuer-mismatch", "claims:nonce-mismatch", "bigger-tokens+nonce-mismatch":
@@ -516,7 +565,7 @@ func (e *c14Exec) intercept(cl *world.Call, req *http.Request) *world.Fault {
 		return &world.Fault{Kind: rec.Kind, Respond: func(*http.Request, func() *http.Response) (*http.Response, error) { return nil, err }}
 	}
 	alpha := c14Alphabet(e.sc, cl.Endpoint, cl.Grant)
-	if len(alpha) == 0 {
+	if len(alpha) == 0 || !e.sc.choicePointAt(cl.Endpoint) {
 		return healthy()
 	}
 	e.ord[e.step+":"+cl.Endpoint]++
@@ -697,6 +746,18 @@ func (e *c14Exec) respond(kind, endpoint string) func(req *http.Request, healthy
 		return func(req *http.Request, _ func() *http.Response) (*http.Response, error) {
 			return raw(req, 200, "application/json", `["alice@example.com",1,2]`)
 		}
+	case "userinfo-json-null":
+		return func(req *http.Request, _ func() *http.Response) (*http.Response, error) {
+			return raw(req, 200, "application/json", `null`)
+		}
+	case "userinfo-json-string":
+		return func(req *http.Request, _ func() *http.Response) (*http.Response, error) {
+			return raw(req, 200, "application/json", `"alice@example.com"`)
+		}
+	case "userinfo-empty-object":
+		return func(req *http.Request, _ func() *http.Response) (*http.Response, error) {
+			return raw(req, 200, "application/json", `{}`)
+		}
 	case "discovery-issuer-mismatch":
 		return edit(func(m map[string]any) { m["issuer"] = "https://evil.example" })
 	case "discovery-no-endpoints":
@@ -723,6 +784,9 @@ func (e *c14Exec) tokenSpec(_ *world.AuthRequest, _ *world.User, refresh bool) *
 		spec.Claims["groups"] = nil
 		spec.Claims["preferred_username"] = nil
 	}
+	for _, l := range e.sc.Lacks {
+		spec.Claims[l] = nil
+	}
 	if e.rotated && refresh {
 		spec.Signer = "unknown-kid"
 	}
@@ -740,9 +804,11 @@ func (e *c14Exec) tokenSpec(_ *world.AuthRequest, _ *world.User, refresh bool) *
 
 // stored renders the session the browser's cookies load to ("" = none): tokens, issue time as
 // offset from the virtual epoch, expiry, identity.
-func (e *c14Exec) stored(b *Browser) string {
+func (e *c14Exec) stored(b *Browser) string { return c14Stored(e.px, b) }
+
+func c14Stored(px *Proxy, b *Browser) string {
 	hdr := b.Jar.Header(b.Scheme, b.Host, "/page")
-	if hdr == "" || e.px == nil {
+	if hdr == "" || px == nil {
 		return ""
 	}
 	req, err := (&world.Req{Method: "GET", Target: "/page", Host: b.Host, Headers: [][2]string{{"Cookie", hdr}}}).Parse()
@@ -756,7 +822,7 @@ func (e *c14Exec) stored(b *Browser) string {
 				out = ""
 			}
 		}()
-		s, err := verifSessionStore(e.px.P).Load(req)
+		s, err := verifSessionStore(px.P).Load(req)
 		if err != nil || s == nil {
 			return
 		}
@@ -1010,6 +1076,9 @@ func c14Run(env *c14Env, sc *c14Scenario, x *explore.Exec) *c14Result {
 	alice := idp.Users["alice"]
 	bearer := ""
 
+	if sc.ProfileUnverified && sc.Flow == "login" {
+		idp.UserinfoClaims = map[string]any{"email_verified": false}
+	}
 	var flow []*c14Step // the requests made under the explorer's choices
 	pastExpiry := ""    // the stored session that has expired by the time of the explored requests
 	switch sc.Flow {
@@ -1046,13 +1115,29 @@ func c14Run(env *c14Env, sc *c14Scenario, x *explore.Exec) *c14Result {
 			good = &world.TokenSpec{DropNonce: true, Signer: "issuer2", Audience: c14ExtraAud}
 		}
 		bearer = "Bearer " + idp.MintIDToken(alice, good)
-		presented := bearer
+		if len(sc.Lacks) > 0 {
+			// (the follow-up request keeps the complete token; the explored requests present one without the claims)
+			lacking := *good
+			lacking.Claims = map[string]any{}
+			for ck, cv := range good.Claims {
+				lacking.Claims[ck] = cv
+			}
+			for _, l := range sc.Lacks {
+				lacking.Claims[l] = nil
+			}
+			good = &lacking
+		}
+		presented := "Bearer " + idp.MintIDToken(alice, good)
 		// choice point: the token the provider issued to the API client is well-formed, or carries
 		// a claim of the wrong JSON type (the statement's "wrongly typed claims")
 		var tk *c14BearerKind
 		kinds := c14BearerKindsFor(sc)
-		res.arities = append(res.arities, 1+len(kinds))
-		if k := x.Choose("request:bearer-token#1", 1+len(kinds)); k > 0 {
+		k := 0
+		if sc.choicePointAt("bearer-token") {
+			res.arities = append(res.arities, 1+len(kinds))
+			k = x.Choose("request:bearer-token#1", 1+len(kinds))
+		}
+		if k > 0 {
 			tk = &kinds[k-1]
 			spec := *good
 			spec.Claims = map[string]any{}
@@ -1107,6 +1192,9 @@ func c14Run(env *c14Env, sc *c14Scenario, x *explore.Exec) *c14Result {
 			pastExpiry = e.stored(b)
 		}
 		e.rotated = sc.Rotated
+		if sc.ProfileUnverified {
+			idp.UserinfoClaims = map[string]any{"email_verified": false}
+		}
 		e.choosing = true
 		flow = append(flow, e.serve(b, "request-1", "/page"))
 		flow = append(flow, e.serve(b, "request-2", "/page"))
@@ -1150,6 +1238,9 @@ func c14Run(env *c14Env, sc *c14Scenario, x *explore.Exec) *c14Result {
 			default:
 				tainted = st.After
 				taintKey = "C14/" + sc.Flow + "/session-from-" + c14FaultKey(culprit)
+				if k := c14ShapeOwnKey(sc, culprit, st); k != "" {
+					taintKey = k
+				}
 				taintWhy = fmt.Sprintf("request %q (provider answers %v; Set-Cookie %v) left the browser with a session it did not have before [%s] although %s answered %s",
 					st.Name, st.Calls, st.SetNames, c14Clip(st.After), culprit.where(), culprit.answer())
 			}
@@ -1262,6 +1353,7 @@ func c14Run(env *c14Env, sc *c14Scenario, x *explore.Exec) *c14Result {
 	}
 
 	// ---- liveness: a well-formed login (bearer request) on the same proxy succeeds afterwards
+	idp.UserinfoClaims = nil
 	if !e.discoveryFault {
 		if sc.Flow == "bearer" {
 			st := e.serve(newBrowser(px, "http", c14Host), "followup", "/page", [2]string{"Authorization", bearer})
@@ -1325,7 +1417,7 @@ type c14Replay struct {
 }
 
 func c14Find(name string) *c14Scenario {
-	for _, sc := range c14Scenarios() {
+	for _, sc := range append(c14Scenarios(), c14ShapeScenarios()...) {
 		if sc.Name == name {
 			return sc
 		}
@@ -1350,6 +1442,9 @@ func c14Units() []c14Unit {
 		for i := 0; i < n; i++ {
 			out = append(out, c14Unit{sc: sc, Sub: i, Of: n})
 		}
+	}
+	for _, sc := range c14ShapeScenarios() {
+		out = append(out, c14Unit{sc: sc, Sub: 0, Of: 1})
 	}
 	return out
 }
@@ -1404,6 +1499,9 @@ func c14Explore(c *Ctx, env *c14Env, u c14Unit, bound int) {
 		if res.split {
 			c.Inc("executions_with_split_session_cookie")
 		}
+		if sc.Shape {
+			c14ShapeCount(c, sc, res)
+		}
 		if len(res.Faults) == 0 {
 			// the well-formed run: must establish / refresh / serve, and tells how many single-fault cases exist
 			okRun := false
@@ -1413,7 +1511,10 @@ func c14Explore(c *Ctx, env *c14Env, u c14Unit, bound int) {
 			default:
 				okRun = res.Outcome == "session-from-well-formed-answers"
 			}
-			if !okRun {
+			if sc.Shape {
+				// what a well-formed run of a claim shape ends in (a token without e-mail and subject, a
+				// profile that calls the address unverified) is C04's subject: recorded by c14ShapeCount
+			} else if !okRun {
 				c.Error("%s: the run without faults ended as %q: %s", sc.Name, res.Outcome, res.observation())
 			} else {
 				c.Inc("scenarios_healthy_run_ok")
@@ -1423,7 +1524,11 @@ func c14Explore(c *Ctx, env *c14Env, u c14Unit, bound int) {
 				n += a - 1
 			}
 			c.Add("expected_single_fault_cases", int64(n))
-			c.Sample(8, res)
+			if sc.Shape {
+				c.Add("shape_expected_single_fault_cases", int64(n))
+			} else {
+				c.Sample(8, res)
+			}
 		} else if len(res.Faults) == 1 && (res.Faults[0].Kind == "hang" || strings.HasPrefix(res.Faults[0].Kind, "bigger-tokens+")) {
 			c.Sample(8, res)
 		}
@@ -1466,6 +1571,8 @@ func init() {
 		level: "fault_enumeration",
 		rule: "every call the proxy makes to its identity provider (discovery, token, JWKS, userinfo, validate; positions discovered by the runs, incl. x/oauth2's retry) x every response kind of the alphabet, " +
 			"one fault per execution (quick) / all pairs (thorough), over login (plain, e-mail from the profile endpoint, custom audience claim), bearer, refresh (plain, rotated signing key, custom audience claim) and validate-URL flows; " +
+			"claim shapes: login, refresh and bearer flows with ID tokens lacking every subset of {sub, email, email_verified, groups, preferred_username} (and a profile endpoint that calls the address unverified) x every profile-lookup position x response kind; " +
+			"audience-claim lists: every ordered list of 2 and 3 of {aud, azp, client_id} x per-claim value kind^len over bearer (len 2,3), login and refresh (len 2; thorough: len 3), judged by a reference model of the admissible readings; " +
 			"each execution on a fresh proxy/provider/browser, judged on the browser's stored session before/after each request, upstream hits, panics and a follow-up well-formed login; " +
 			"distinct_nontrivial = distinct (scenario, call position, response kind[, second position, kind]) combinations actually delivered",
 		assumptions: []string{
@@ -1533,12 +1640,18 @@ func init() {
 				}
 				c14Explore(c, env, u, bound)
 			}
+			c.Info["claim_shapes"] = c14ShapeInfo()
+			if only == "" || only == "audience" {
+				c14Audience(c, env.up)
+			}
 		},
 		post: func(c *Ctx) {
 			n := int64(len(c14Scenarios()))
 			if envStr("VERIF_C14_ONLY") != "" {
 				return
 			}
+			c14ShapePost(c)
+			c14AudiencePost(c)
 			if c.Counters["scenarios_healthy_run_ok"] != n {
 				c.Error("vacuous: %d of %d scenarios completed their run without faults", c.Counters["scenarios_healthy_run_ok"], n)
 			}
@@ -1563,6 +1676,12 @@ func init() {
 		},
 		replay: func(c *Ctx, raw json.RawMessage) string {
 			runtime.GOMAXPROCS(1)
+			var part struct {
+				Part string `json:"part"`
+			}
+			if json.Unmarshal(raw, &part) == nil && part.Part == "audience" {
+				return c14AudienceReplay(c, raw)
+			}
 			var rp c14Replay
 			if err := json.Unmarshal(raw, &rp); err != nil {
 				return err.Error()
